@@ -13,7 +13,7 @@
     no next-round view has round 0): a bumped version / incremented round that wrapped is 0. *)
 From Coq Require Import List NArith Arith Bool Lia String Sorting.Sorted.
 From GV Require Import Base.Ints Gen.Math Gen.Kernel Model.Mirror Model.MirrorMgr
-  Proofs.MirrorAuth Proofs.MirrorChain Proofs.MirrorMgr.
+  Proofs.MirrorAuth Proofs.MirrorChain Proofs.MirrorMgr Proofs.MirrorAct.
 Import ListNotations.
 Local Open Scope N_scope.
 
@@ -954,6 +954,39 @@ Proof.
   - apply TR_handle_replay.
 Qed.
 
+(** the local validator's own actions (handleStateMachineAction) are kernel transitions of the same kind *)
+Lemma act_vote_cases kind s h r key target sg s' :
+  act_vote kind s h r key target sg = Ok s' ->
+  s' = s \/ exists vid base i, (pm_get (view_votes kind (get_view s vid)) target = Some base \/
+                               (pm_get (view_votes kind (get_view s vid)) target = None /\ base = [])) /\
+                              apply_votes kind s vid h r [(target, add_sig base i sg)] = Ok s'.
+Proof.
+  unfold act_vote, bind. destruct (find_view _ _ _) as [[vid st]|]; [|discriminate].
+  destruct (negb _); [intros E; inversion E; left; reflexivity|].
+  destruct (pm_get (view_votes kind (get_view s vid)) target) as [p|] eqn:Hg.
+  - destruct key as [k|]; [|discriminate]. destruct (key_index _ k) as [i|]; [|intros E; inversion E; left; reflexivity].
+    destruct (verify_vote _ _ _ _ _ _); [|intros E; inversion E; left; reflexivity].
+    intros E. right. exists vid, p, i. split; [left; exact Hg|exact E].
+  - destruct (vs_keys (v_vals (get_view s vid))); [discriminate|].
+    destruct key as [k|]; [|discriminate]. destruct (key_index _ k) as [i|]; [|intros E; inversion E; left; reflexivity].
+    destruct (verify_vote _ _ _ _ _ _); [|intros E; inversion E; left; reflexivity].
+    intros E. right. exists vid, [], i. split; [right; split; [exact Hg|reflexivity]|exact E].
+Qed.
+
+Lemma TR_act_vote kind s h r key target sg s' : act_vote kind s h r key target sg = Ok s' -> TR s s'.
+Proof.
+  intros H. destruct (act_vote_cases _ _ _ _ _ _ _ _ H) as [->|(vid&base&i&Hb&Ha)]; [apply TR_refl|].
+  eapply TR_apply_votes; [|exact Ha].
+  intros t p' [E|[]] p Hg. inversion E; subst t p'.
+  destruct Hb as [Hb|[Hb _]]; rewrite Hb in Hg; [|discriminate]. inversion Hg; subst. apply add_sig_le.
+Qed.
+
+Theorem TR_act_step s h r key a s' : act_step s h r key a = Ok s' -> TR s s'.
+Proof.
+  destruct a as [target sg|target sg|p]; cbn [act_step]; try apply TR_act_vote.
+  unfold act_ph. destruct (hd_hash (ph_hdr p)); [discriminate|apply TR_add_ph].
+Qed.
+
 (** * Histories of mirror + managers *)
 Definition no_restart (o : mop) : bool := match o with MK x => negb (is_restart_x x) | _ => true end.
 
@@ -987,10 +1020,21 @@ Proof.
   rewrite He, skipn_app_length. reflexivity.
 Qed.
 
+Lemma mact_step_facts s a s1 r io :
+  mstep s (MAct a) = Ok (s1, r, io) ->
+  exists new, st_ev (ms_k s1) = st_ev (ms_k s) ++ new /\ TR3 (views (ms_k s)) (views (ms_k s1)) new /\
+              ms_m s1 = fold_left mgr_step new (ms_m s) /\ io = IONone.
+Proof.
+  cbn [mstep]. unfold bind. destruct (act_step _ _ _ _ a) as [k'|] eqn:Hs; [|discriminate].
+  intros E; inversion E; subst. destruct (TR_act_step _ _ _ _ _ _ Hs) as (new&He&H3).
+  exists new. cbn [ms_k ms_m]. split; [exact He|]. split; [exact H3|]. split; [|reflexivity].
+  rewrite He, skipn_app_length. reflexivity.
+Qed.
+
 Lemma mstep_ext s o s1 r io : no_restart o = true -> mstep s o = Ok (s1, r, io) ->
   exists new, st_ev (ms_k s1) = st_ev (ms_k s) ++ new.
 Proof.
-  destruct o as [[o| |]|h0 r0| |]; cbn [no_restart is_restart_x negb]; try discriminate; intros _ H.
+  destruct o as [[o| |]|h0 r0| | |h0 r0 key0|a]; cbn [no_restart is_restart_x negb]; try discriminate; intros _ H.
   - destruct (mk_step_facts _ _ _ _ _ H) as (new&He&_). exists new. exact He.
   - exists []. rewrite app_nil_r. revert H. cbn [mstep]. unfold bind.
     destruct (find_view _ _ _) as [[vid st]|]; [|discriminate].
@@ -1001,6 +1045,12 @@ Proof.
     destruct (sm_output _) as [[[vv jv] sv]|]; intros E; inversion E; reflexivity.
   - exists []. rewrite app_nil_r. revert H. cbn [mstep].
     destruct (g_output _) as [[[[c v] n] nl]|]; intros E; inversion E; reflexivity.
+  - exists []. rewrite app_nil_r. revert H. cbn [mstep]. unfold bind.
+    destruct (find_view _ _ _) as [[vid st]|]; [|discriminate].
+    destruct (st =? ViewFound); [intros E; inversion E; reflexivity|].
+    destruct (st =? ViewBeforeCommitting); [|discriminate].
+    destruct (hdr_get _ _) as [[x cp]|]; [intros E; inversion E; reflexivity|discriminate].
+  - destruct (mact_step_facts _ _ _ _ _ H) as (new&He&_). exists new. exact He.
 Qed.
 
 Lemma mrun_ext ops : forall s s' ios, forallb no_restart ops = true -> mrun s ops = Ok (s', ios) ->
@@ -1175,7 +1225,7 @@ Proof.
     intros E; inversion E; subst. intros Hok Hkinv HG. cbn [flat_map].
     destruct (mrun_ext _ _ _ _ Hr Hm) as (n2&E2). rewrite E2 in Hok. apply ok_prefix in Hok as [Hok1 Hok2].
     assert (Hfin : Forall ev_ok (st_ev (ms_k s'))) by (rewrite E2; apply Forall_app; split; assumption).
-    destruct o as [[o| |]|h0 r0| |]; cbn [no_restart is_restart_x negb] in Ho; try discriminate.
+    destruct o as [[o| |]|h0 r0| | |h0 r0 key0|a]; cbn [no_restart is_restart_x negb] in Ho; try discriminate.
     + (* kernel operation *)
       destruct (mk_step_facts _ _ _ _ _ Hs) as (new&He&H3&Hm1&Hio). subst io. cbn [g_deliv app].
       rewrite He in Hok1. apply ok_prefix in Hok1 as [Hok0 Hoknew].
@@ -1204,6 +1254,22 @@ Proof.
         -- destruct Hrd as (El&Hlt&HG1). inversion El; subst l. cbn [app chain_from]. split; [exact Hlt|].
            apply (IH _ s' ios2 x Hr Hm Hfin); [exact Hkinv|exact HG1].
       * intros E1; inversion E1; subst. cbn [g_deliv app]. apply (IH _ s' ios2 d Hr Hm Hfin); assumption.
+    + (* round entrance with a key: the gossip manager and the kernel are untouched *)
+      assert (Hsame : ms_k s1 = ms_k s /\ m_g (ms_m s1) = m_g (ms_m s) /\ g_deliv k io = []).
+      { revert Hs. cbn [mstep]. unfold bind. destruct (find_view _ _ _) as [[vid st]|]; [|discriminate].
+        destruct (st =? ViewFound); [intros E1; inversion E1; repeat split|].
+        destruct (st =? ViewBeforeCommitting); [|discriminate].
+        destruct (hdr_get _ _) as [[x cp]|]; [intros E1; inversion E1; repeat split|discriminate]. }
+      destruct Hsame as (S1&S2&S3). rewrite S3. cbn [app].
+      apply (IH s1 s' ios2 d Hr Hm Hfin); [rewrite S1; exact Hkinv|]. unfold GI in *. rewrite S1, S2. exact HG.
+    + (* local action: a kernel transition *)
+      destruct (mact_step_facts _ _ _ _ _ Hs) as (new&He&H3&Hm1&Hio). subst io. cbn [g_deliv app].
+      rewrite He in Hok1. apply ok_prefix in Hok1 as [Hok0 Hoknew].
+      destruct (H3 Hoknew Hkinv) as (K1&_).
+      apply (IH s1 s' ios2 d Hr Hm Hfin K1).
+      destruct HG as (G1&G2&G3). unfold GI. rewrite Hm1, (fold_mgr_gslot k Hk). cbn [go_v go_sent].
+      destruct (tracker_step _ _ _ k _ Hk Hoknew Hkinv H3 G3) as [A B].
+      split; [exact G1|]. split; [eapply vle_trans; eassumption|exact B].
 Qed.
 
 Lemma chain_from_weaken (R : view -> view -> Prop) (Rt : forall a b c, R a b -> R b c -> R a c) l :
@@ -1456,7 +1522,7 @@ Proof.
     intros E; inversion E; subst. intros Hok Hkinv HS. cbn [flat_map].
     destruct (mrun_ext _ _ _ _ (epoch_no_restart _ Hr) Hm) as (n2&E2). rewrite E2 in Hok. apply ok_prefix in Hok as [Hok1 Hok2].
     assert (Hfin : Forall ev_ok (st_ev (ms_k s'))) by (rewrite E2; apply Forall_app; split; assumption).
-    destruct o as [[o| |]|h0 r0| |]; cbn [epoch_op is_restart_x negb] in Ho; try discriminate.
+    destruct o as [[o| |]|h0 r0| | |h0 r0 key0|a]; cbn [epoch_op is_restart_x negb] in Ho; try discriminate.
     + destruct (mk_step_facts _ _ _ _ _ Hs) as (new&He&H3&Hm1&Hio). subst io. cbn [sm_vrv sm_jmp app].
       rewrite He in Hok1. apply ok_prefix in Hok1 as [Hok0 Hoknew].
       destruct (H3 Hoknew Hkinv) as (K1&_).
@@ -1486,6 +1552,14 @@ Proof.
     + revert Hs. cbn [mstep]. destruct (g_output _) as [[[[c v] n] nl]|].
       * intros E1; inversion E1; subst. cbn [sm_vrv sm_jmp app]. apply (IH _ s' ios2 b JD Hr Hm Hfin Hkinv HS).
       * intros E1; inversion E1; subst. cbn [sm_vrv sm_jmp app]. apply (IH _ s' ios2 b JD Hr Hm Hfin Hkinv HS).
+    + destruct (mact_step_facts _ _ _ _ _ Hs) as (new&He&H3&Hm1&Hio). subst io. cbn [sm_vrv sm_jmp app].
+      rewrite He in Hok1. apply ok_prefix in Hok1 as [Hok0 Hoknew].
+      destruct (H3 Hoknew Hkinv) as (K1&_).
+      assert (HS1 : SI s1 b JD) by (unfold SI; rewrite Hm1; exact (SIc_events (ms_m s) _ _ new b JD Hoknew Hkinv H3 HS)).
+      destruct (fold_mgr_step_sm_fixed new (ms_m s)) as (Fh&Fr&_).
+      replace (smm_h (sm_of s)) with (smm_h (sm_of s1)) by (unfold sm_of; rewrite Hm1; exact Fh).
+      replace (smm_r (sm_of s)) with (smm_r (sm_of s1)) by (unfold sm_of; rewrite Hm1; exact Fr).
+      apply (IH s1 s' ios2 b JD Hr Hm Hfin K1 HS1).
 Qed.
 
 (** ** Reaching an entrance *)
@@ -1520,7 +1594,7 @@ Proof.
     intros E; inversion E; subst. intros Hok [Hkinv Hout].
     destruct (mrun_ext _ _ _ _ Hr Hm) as (n2&E2). pose proof Hok as Hfin. rewrite E2 in Hok. apply ok_prefix in Hok as [Hok1 Hok2].
     apply (IH s1 s' ios2 Hr Hm Hfin).
-    destruct o as [[o| |]|h0 r0| |]; cbn [no_restart is_restart_x negb] in Ho; try discriminate.
+    destruct o as [[o| |]|h0 r0| | |h0 r0 key0|a]; cbn [no_restart is_restart_x negb] in Ho; try discriminate.
     + destruct (mk_step_facts _ _ _ _ _ Hs) as (new&He&H3&Hm1&Hio).
       rewrite He in Hok1. apply ok_prefix in Hok1 as [Hok0 Hoknew].
       destruct (H3 Hoknew Hkinv) as (K1&S&P&M&Nn&O). rewrite Forall_forall in Nn.
@@ -1532,6 +1606,15 @@ Proof.
       destruct (hdr_get _ _) as [[x cp]|]; [intros E1; inversion E1; subst; split; assumption|discriminate].
     + revert Hs. cbn [mstep]. destruct (sm_output _) as [[[vv jv] sv]|]; intros E1; inversion E1; subst; split; assumption.
     + revert Hs. cbn [mstep]. destruct (g_output _) as [[[[c v] n] nl]|]; intros E1; inversion E1; subst; split; assumption.
+    + revert Hs. cbn [mstep]. unfold bind. destruct (find_view _ _ _) as [[vid st]|]; [|discriminate].
+      destruct (st =? ViewFound); [intros E1; inversion E1; subst; split; assumption|].
+      destruct (st =? ViewBeforeCommitting); [|discriminate].
+      destruct (hdr_get _ _) as [[x cp]|]; [intros E1; inversion E1; subst; split; assumption|discriminate].
+    + destruct (mact_step_facts _ _ _ _ _ Hs) as (new&He&H3&Hm1&Hio).
+      rewrite He in Hok1. apply ok_prefix in Hok1 as [Hok0 Hoknew].
+      destruct (H3 Hoknew Hkinv) as (K1&S&P&M&Nn&O). rewrite Forall_forall in Nn.
+      split; [exact K1|]. unfold sm_of. rewrite Hm1.
+      destruct (fold_mgr_sm_src new (ms_m s)) as [[E1|(vid&Hin)] _]; [rewrite E1; apply P, Hout|exact (proj2 (Nn _ Hin))].
 Qed.
 
 Lemma SG_init ih ivs : 1 <= ih -> ih < two64 -> SG (ms_init ih ivs).
@@ -2101,6 +2184,29 @@ Proof.
   exists new. split; [exact He|]. split; [exact H3|]. split; [exact H2|exact Hm].
 Qed.
 
+Theorem SY_act_step s h r key a s' : auth_state s -> act_step s h r key a = Ok s' -> SY s s'.
+Proof.
+  intros Ha. destruct a as [target sg|target sg|p]; cbn [act_step].
+  - intros H. destruct (act_vote_cases _ _ _ _ _ _ _ _ H) as [->|(vid&base&i&_&Hv)]; [apply SY_refl|eapply SY_apply_votes; exact Hv].
+  - intros H. destruct (act_vote_cases _ _ _ _ _ _ _ _ H) as [->|(vid&base&i&_&Hv)]; [apply SY_refl|eapply SY_apply_votes; exact Hv].
+  - unfold act_ph. destruct (hd_hash (ph_hdr p)); [discriminate|apply SY_add_ph; exact Ha].
+Qed.
+
+Lemma mact_step_sync s a s1 r io :
+  auth_state (ms_k s) -> mstep s (MAct a) = Ok (s1, r, io) ->
+  auth_state (ms_k s1) /\
+  exists new, st_ev (ms_k s1) = st_ev (ms_k s) ++ new /\ TR3 (views (ms_k s)) (views (ms_k s1)) new /\
+              SY3 (views (ms_k s)) (views (ms_k s1)) new /\ ms_m s1 = fold_left mgr_step new (ms_m s).
+Proof.
+  intros Ha Hs. destruct (mact_step_facts _ _ _ _ _ Hs) as (new&He&H3&Hm&_).
+  revert Hs. cbn [mstep]. unfold bind. destruct (act_step _ _ _ _ a) as [k'|] eqn:Hst; [|discriminate].
+  intros E; inversion E; subst. cbn [ms_k ms_m] in *.
+  split; [eapply auth_act_step; eassumption|].
+  destruct (SY_act_step _ _ _ _ _ _ Ha Hst) as (new2&He2&H2).
+  assert (new2 = new) by (rewrite He in He2; apply app_inv_head in He2; symmetry; exact He2). subst new2.
+  exists new. split; [exact He|]. split; [exact H3|]. split; [exact H2|exact Hm].
+Qed.
+
 (** ** Gossip: the three slots hold the kernel's views *)
 Definition GC (s : mstate) : Prop :=
   forall k, is_slot k -> go_v (gslot (m_g (ms_m s)) k) = get3 (views (ms_k s)) k.
@@ -2123,7 +2229,7 @@ Proof.
     destruct (mrun s1 rest) as [[s2 ios2]|] eqn:Hm; [|discriminate].
     intros E; inversion E; subst. intros Ha HG.
     apply (IH s1 s' ios2 Hr Hm).
-    + destruct o as [[o| |]|h0 r0| |]; cbn [no_restart is_restart_x negb] in Ho; try discriminate.
+    + destruct o as [[o| |]|h0 r0| | |h0 r0 key0|a]; cbn [no_restart is_restart_x negb] in Ho; try discriminate.
       * apply (mk_step_sync _ _ _ _ _ Ha Hs).
       * revert Hs. cbn [mstep]. unfold bind. destruct (find_view _ _ _) as [[vid st]|]; [|discriminate].
         destruct (st =? ViewFound); [intros E1; inversion E1; subst; exact Ha|].
@@ -2131,7 +2237,12 @@ Proof.
         destruct (hdr_get _ _) as [[x cp]|]; [intros E1; inversion E1; subst; exact Ha|discriminate].
       * revert Hs. cbn [mstep]. destruct (sm_output _) as [[[vv jv] sv]|]; intros E1; inversion E1; subst; exact Ha.
       * revert Hs. cbn [mstep]. destruct (g_output _) as [[[[c v] n] nl]|]; intros E1; inversion E1; subst; exact Ha.
-    + destruct o as [[o| |]|h0 r0| |]; cbn [no_restart is_restart_x negb] in Ho; try discriminate.
+      * revert Hs. cbn [mstep]. unfold bind. destruct (find_view _ _ _) as [[vid st]|]; [|discriminate].
+        destruct (st =? ViewFound); [intros E1; inversion E1; subst; exact Ha|].
+        destruct (st =? ViewBeforeCommitting); [|discriminate].
+        destruct (hdr_get _ _) as [[x cp]|]; [intros E1; inversion E1; subst; exact Ha|discriminate].
+      * apply (mact_step_sync _ _ _ _ _ Ha Hs).
+    + destruct o as [[o| |]|h0 r0| | |h0 r0 key0|a]; cbn [no_restart is_restart_x negb] in Ho; try discriminate.
       * destruct (mk_step_sync _ _ _ _ _ Ha Hs) as (_&new&He&H3&HY&Hm1).
         intros k Hk. rewrite Hm1, (fold_mgr_gslot k Hk). cbn [go_v]. rewrite (HG k Hk). apply HY. exact Hk.
       * revert Hs. cbn [mstep]. unfold bind. destruct (find_view _ _ _) as [[vid st]|]; [|discriminate].
@@ -2141,6 +2252,12 @@ Proof.
       * revert Hs. cbn [mstep]. destruct (sm_output _) as [[[vv jv] sv]|]; intros E1; inversion E1; subst; exact HG.
       * revert Hs. cbn [mstep]. destruct (g_output _) as [[[[c v] n] nl]|]; intros E1; inversion E1; subst; [|exact HG].
         intros k Hk. cbn [ms_m ms_k m_g]. rewrite go_v_mark_sent. apply HG. exact Hk.
+      * revert Hs. cbn [mstep]. unfold bind. destruct (find_view _ _ _) as [[vid st]|]; [|discriminate].
+        destruct (st =? ViewFound); [intros E1; inversion E1; subst; exact HG|].
+        destruct (st =? ViewBeforeCommitting); [|discriminate].
+        destruct (hdr_get _ _) as [[x cp]|]; [intros E1; inversion E1; subst; exact HG|discriminate].
+      * destruct (mact_step_sync _ _ _ _ _ Ha Hs) as (_&new&He&H3&HY&Hm1).
+        intros k Hk. rewrite Hm1, (fold_mgr_gslot k Hk). cbn [go_v]. rewrite (HG k Hk). apply HY. exact Hk.
 Qed.
 
 Lemma GC_init ih ivs : GC (ms_init ih ivs).
@@ -2366,6 +2483,21 @@ Proof.
   exists new. split; [exact He|]. split; [exact H3|]. split; [exact H2|exact Hm].
 Qed.
 
+Lemma mact_step_syncw s a s1 r io :
+  auth_state (ms_k s) -> mstep s (MAct a) = Ok (s1, r, io) ->
+  auth_state (ms_k s1) /\
+  exists new, st_ev (ms_k s1) = st_ev (ms_k s) ++ new /\ TR3 (views (ms_k s)) (views (ms_k s1)) new /\
+              SYW3 (views (ms_k s)) (views (ms_k s1)) new /\ ms_m s1 = fold_left mgr_step new (ms_m s).
+Proof.
+  intros Ha Hs. destruct (mact_step_facts _ _ _ _ _ Hs) as (new&He&H3&Hm&_).
+  revert Hs. cbn [mstep]. unfold bind. destruct (act_step _ _ _ _ a) as [k'|] eqn:Hst; [|discriminate].
+  intros E; inversion E; subst. cbn [ms_k ms_m] in *.
+  split; [eapply auth_act_step; eassumption|].
+  destruct (SY_SYW _ _ (SY_act_step _ _ _ _ _ _ Ha Hst)) as (new2&He2&H2).
+  assert (new2 = new) by (rewrite He in He2; apply app_inv_head in He2; symmetry; exact He2). subst new2.
+  exists new. split; [exact He|]. split; [exact H3|]. split; [exact H2|exact Hm].
+Qed.
+
 Definition LI (sm : smm) (t : vs3) : Prop :=
   smm_last sm = 0 \/ exists b, smm_last sm = v_ver b /\ v_h b = smm_h sm /\ v_r b = smm_r sm /\ past b t.
 
@@ -2466,7 +2598,7 @@ Proof.
     { apply (sg_run [o] s s1 [io]); [cbn [forallb]; rewrite andb_true_r; exact Ho
                                     |cbn [mrun]; rewrite Hs; reflexivity|exact Hok1|exact HSG]. }
     split; [exact HSG1|]. destruct HSG as [Hkinv Hout]. unfold sm_of in *.
-    destruct o as [[o| |]|h0 r0| |]; cbn [no_restart is_restart_x negb] in Ho; try discriminate.
+    destruct o as [[o| |]|h0 r0| | |h0 r0 key0|a]; cbn [no_restart is_restart_x negb] in Ho; try discriminate.
     + destruct (mk_step_syncw _ _ _ _ _ Ha Hs) as (Ha1&new&He&H3&HY&Hm1).
       rewrite He in Hok1. apply ok_prefix in Hok1 as [Hok0 Hoknew].
       destruct (H3 Hoknew Hkinv) as (K1&S&P&M&Nn&O).
@@ -2507,6 +2639,32 @@ Proof.
         -- rewrite (Sn eq_refl) in Vlt. apply (HCI vid Hvid Vh Vr Vlt).
     + revert Hs. cbn [mstep]. destruct (g_output _) as [[[[c v] n] nl]|]; intros E1; inversion E1; subst;
         split; [exact HLI|split; [exact HCI|exact Ha]|exact HLI|split; [exact HCI|exact Ha]].
+    + revert Hs. cbn [mstep]. unfold bind. destruct (find_view _ _ _) as [[vid0 st]|] eqn:Hfv; [|discriminate].
+      destruct (st =? ViewFound) eqn:Hst.
+      * intros E1; inversion E1; subst. cbn [ms_m ms_k m_sm]. apply N.eqb_eq in Hst.
+        destruct (enter_found_pos _ _ _ _ _ Hkinv Hfv Hst) as [Ph Pr]. rewrite get_view_get3 in *.
+        split; [|split; [|exact Ha]].
+        -- right. exists (get3 (views (ms_k s)) vid0). cbn [smm_last smm_h smm_r].
+           split; [reflexivity|]. split; [exact Ph|]. split; [exact Pr|]. apply past_get3. exact Hkinv.
+        -- intros vid Hvid. cbn [smm_last smm_h smm_r smm_out]. intros Vh Vr Vlt. exfalso.
+           assert (Q : vq (get3 (views (ms_k s)) vid) (get3 (views (ms_k s)) vid0)).
+           { apply past_below_get3; [apply past_get3; exact Hkinv|split; congruence]. }
+           destruct Q as [Q _]. lia.
+      * destruct (st =? ViewBeforeCommitting) eqn:Hst2; [|discriminate].
+        destruct (hdr_get _ _) as [[x cp]|]; [|discriminate]. intros E1; inversion E1; subst. cbn [ms_m ms_k m_sm].
+        apply N.eqb_eq in Hst2. destruct (find_view_before _ _ _ _ _ Hfv Hst2) as [NV NC]. cbn in NV, NC.
+        split; [left; reflexivity|split; [|exact Ha]].
+        intros vid Hvid. cbn [smm_last smm_h smm_r smm_out]. intros Vh Vr _. exfalso.
+        destruct Hvid as [->| ->]; unfold get3, views in Vh, Vr; cbn in Vh, Vr; [apply NV; congruence|apply NC; split; congruence].
+    + destruct (mact_step_syncw _ _ _ _ _ Ha Hs) as (Ha1&new&He&H3&HY&Hm1).
+      rewrite He in Hok1. apply ok_prefix in Hok1 as [Hok0 Hoknew].
+      destruct (H3 Hoknew Hkinv) as (K1&S&P&M&Nn&O).
+      destruct (fold_mgr_step_sm_fixed new (ms_m s)) as (Fh&Fr&Fl).
+      split; [|split; [|exact Ha1]].
+      * unfold LI. rewrite Hm1, Fh, Fr, Fl. destruct HLI as [L0|(b&B1&B2&B3&B4)]; [left; exact L0|].
+        right. exists b. split; [exact B1|]. split; [exact B2|]. split; [exact B3|]. apply P, B4.
+      * unfold CI. rewrite Hm1, Fh, Fr, Fl, fold_mgr_sm_track. intros vid Hvid Vh Vr Vlt.
+        exact (sm_sync_events (views (ms_k s)) (views (ms_k s1)) new _ _ _ _ vid Hoknew Hkinv H3 HY Hvid HCI Vh Vr Vlt).
 Qed.
 
 Lemma SC_init ih ivs : 1 <= ih -> ih < two64 -> SC (ms_init ih ivs).
